@@ -22,7 +22,8 @@ def hydro_consts(truth, max_ev, emit_at, start="{3, 6}", max_gap=1, force="FALSE
 def behaviours(chk, label, consts, simulate=None, workers=12):
     invs = ["Inv_ClassifiedEqualsPlanted", "Inv_OnLattice"]
     cfg = tlc.cfg_text(consts, spec="Spec", invariants=invs + ["EmitInv"])
-    res = tlc.run("MCHydro", cfg, workers=workers, simulate=simulate, invariants=invs, timeout=3000)
+    res = tlc.run("MCHydro", cfg, workers=workers, simulate=simulate, invariants=invs, timeout=3000,
+                  extra=("-seed", str(seed() + 1)) if simulate else ())
     chk.add_tlc(res, label)
     if res.get("violated") or (simulate and res["error"]):
         chk.violation("Hydro.tla: the classifier's definitions do not recover what was planted: " + res["error"][:600],
